@@ -14,10 +14,11 @@ import (
 // each loss; a permanent error ends the retry loop; Stop makes Run return.
 
 type c13Round struct {
-	Fault    string   `json:"fault"`     // drop-fin | drop-rst | graceful | stream-error
-	AfterMs  int      `json:"after_ms"`  // when, after the session was (re-)established
-	Attempts []string `json:"attempts"`  // outcome of each following attempt: refuse | timeout | reset | neg-close-header | neg-close-auth | neg-close-bind | permanent-auth | ok
-	ResumeOK bool     `json:"resume_ok"` // server accepts <resume/> on the good connection
+	Fault      string   `json:"fault"`     // drop-fin | drop-rst | graceful | stream-error
+	AfterMs    int      `json:"after_ms"`  // when, after the session was (re-)established
+	Attempts   []string `json:"attempts"`  // outcome of each following attempt: refuse | timeout | reset | neg-close-header | neg-close-auth | neg-close-bind | permanent-auth | ok
+	ResumeOK   bool     `json:"resume_ok"` // server accepts <resume/> on the good connection
+	LongOutage bool     `json:"long_outage,omitempty"`
 }
 
 type c13Scenario struct {
@@ -49,6 +50,15 @@ func runC13(e *Engine, g G, o RunOpt) RunInfo {
 		rd.Fault = []string{"drop-fin", "drop-rst", "graceful", "stream-error"}[g.Weighted("fault", 4, 3, 3, 2)]
 		rd.AfterMs = []int{10, 400, 7000, 65000}[g.N("after", 4)] + g.N("afterjit", 50)
 		m := g.Weighted("nfail", 4, 3, 2, 1, 1, 1, 1)
+		if g.Pct("long-outage", 6) {
+			// hours of refusals: the back-off reaches its cap and the exponent grows large
+			m = g.Range("outage", 40, 90)
+			for i := 0; i < m; i++ {
+				rd.Attempts = append(rd.Attempts, "refuse")
+			}
+			m = 0
+			rd.LongOutage = true
+		}
 		for i := 0; i < m; i++ {
 			rd.Attempts = append(rd.Attempts, []string{"refuse", "timeout", "reset", "neg-close-header", "neg-close-auth", "neg-close-bind", "neg-error-instead-of-features"}[g.Weighted("attempt", 5, 1, 2, 2, 2, 2, 2)])
 		}
@@ -244,6 +254,9 @@ func runC13(e *Engine, g G, o RunOpt) RunInfo {
 				break
 			}
 			reestablished++
+			if rd.LongOutage {
+				e.Probe("c13.reestablished_after_long_outage")
+			}
 			e.Sleep(2 * time.Second)
 			cur = established()[len(established())-1]
 			resumePossible := sc.Client.SM && rd.ResumeOK
